@@ -89,7 +89,25 @@ example : (decTransaction ⟨5, Acc.exLegacyTx ++ [7,7]⟩).res = .ok (⟨⟨5, 
 example : (decTransaction ⟨5, Acc.exSegwitTx ++ [7,7]⟩).res = .ok (⟨⟨5, Acc.exSegwitTx⟩, some 53⟩, ⟨71, [7,7]⟩) := by decide
 example : TxV.preimageBytes ⟨⟨5, Acc.exSegwitTx⟩, some 53⟩ = .ok Acc.exStrippedTx := by decide
 example : TxV.version ⟨⟨5, Acc.exSegwitTx⟩, some 53⟩ = .ok 2 ∧ TxV.locktime ⟨⟨5, Acc.exSegwitTx⟩, some 53⟩ = .ok 9 := by decide
-example : ((decHeader ⟨3, List.replicate 81 0x11⟩).res.isOk) = true := by decide/-! ## L1 corollaries (generated by tools/genlift.py) -/
+example : ((decHeader ⟨3, List.replicate 81 0x11⟩).res.isOk) = true := by decide/-! ### the reference SHA-256 is SHA-256: FIPS 180-4 test vectors, evaluated by the kernel -/
+
+theorem C10_sha256_vector_abc : Sha256.sha256 [0x61, 0x62, 0x63] =
+    [0xba,0x78,0x16,0xbf,0x8f,0x01,0xcf,0xea,0x41,0x41,0x40,0xde,0x5d,0xae,0x22,0x23,
+     0xb0,0x03,0x61,0xa3,0x96,0x17,0x7a,0x9c,0xb4,0x10,0xff,0x61,0xf2,0x00,0x15,0xad] := by decide +kernel
+
+theorem C10_sha256_vector_empty : Sha256.sha256 [] =
+    [0xe3,0xb0,0xc4,0x42,0x98,0xfc,0x1c,0x14,0x9a,0xfb,0xf4,0xc8,0x99,0x6f,0xb9,0x24,
+     0x27,0xae,0x41,0xe4,0x64,0x9b,0x93,0x4c,0xa4,0x95,0x99,0x1b,0x78,0x52,0xb8,0x55] := by decide +kernel
+
+/-- the 56-byte two-block vector "abcdbcdecdefdefgefghfghighijhijkijkljklmklmnlmnomnopnopq" -/
+theorem C10_sha256_vector_two_blocks : Sha256.sha256
+    [0x61,0x62,0x63,0x64,0x62,0x63,0x64,0x65,0x63,0x64,0x65,0x66,0x64,0x65,0x66,0x67,0x65,0x66,0x67,0x68,0x66,0x67,0x68,0x69,
+     0x67,0x68,0x69,0x6a,0x68,0x69,0x6a,0x6b,0x69,0x6a,0x6b,0x6c,0x6a,0x6b,0x6c,0x6d,0x6b,0x6c,0x6d,0x6e,0x6c,0x6d,0x6e,0x6f,
+     0x6d,0x6e,0x6f,0x70,0x6e,0x6f,0x70,0x71] =
+    [0x24,0x8d,0x6a,0x61,0xd2,0x06,0x38,0xb8,0xe5,0xc0,0x26,0x93,0x0c,0x3e,0x60,0x39,
+     0xa3,0x3c,0xe4,0x59,0x64,0xff,0x21,0x67,0xf6,0xec,0xed,0xd4,0x19,0xdb,0x06,0xc1] := by decide +kernel
+
+/-! ## L1 corollaries (generated by tools/genlift.py) -/
 section L1
 open BS.Ref BS.Lift
 
